@@ -22,6 +22,24 @@ open ClairModel
 @[simp] theorem setRun_status (s : State) (r : Nat) (x : RunSt) : (s.setRun r x).status = s.status := rfl
 @[simp] theorem setRun_pc (s : State) (r : Nat) (x : RunSt) : (s.setRun r x).pc = s.pc := rfl
 
+@[simp] theorem setPc_body (s : State) (r i : Nat) (p : Pc) : (s.setPc r i p).body = s.body := rfl
+@[simp] theorem setPc_closes (s : State) (r i : Nat) (p : Pc) : (s.setPc r i p).closes = s.closes := rfl
+@[simp] theorem setRun_body (s : State) (r : Nat) (x : RunSt) : (s.setRun r x).body = s.body := rfl
+@[simp] theorem setRun_closes (s : State) (r : Nat) (x : RunSt) : (s.setRun r x).closes = s.closes := rfl
+@[simp] theorem setBody_locks (s : State) (r i : Nat) (b : Body) : (s.setBody r i b).locks = s.locks := rfl
+@[simp] theorem setBody_ops (s : State) (r i : Nat) (b : Body) : (s.setBody r i b).ops = s.ops := rfl
+@[simp] theorem setBody_calls (s : State) (r i : Nat) (b : Body) : (s.setBody r i b).calls = s.calls := rfl
+@[simp] theorem setBody_status (s : State) (r i : Nat) (b : Body) : (s.setBody r i b).status = s.status := rfl
+@[simp] theorem setBody_pc (s : State) (r i : Nat) (b : Body) : (s.setBody r i b).pc = s.pc := rfl
+@[simp] theorem setBody_run (s : State) (r i : Nat) (b : Body) : (s.setBody r i b).run = s.run := rfl
+@[simp] theorem setBody_closes (s : State) (r i : Nat) (b : Body) : (s.setBody r i b).closes = s.closes := rfl
+
+theorem setBody_body (s : State) (r i : Nat) (b : Body) (r' i' : Nat) :
+    (s.setBody r i b).body r' i' = if r' = r ∧ i' = i then b else s.body r' i' := rfl
+
+@[simp] theorem setBody_body_self (s : State) (r i : Nat) (b : Body) : (s.setBody r i b).body r i = b := by
+  simp [setBody_body]
+
 theorem setPc_pc (s : State) (r i : Nat) (p : Pc) (r' i' : Nat) :
     (s.setPc r i p).pc r' i' = if r' = r ∧ i' = i then p else s.pc r' i' := rfl
 
@@ -356,13 +374,23 @@ theorem invL_step {env : Env} {s : State} (h : InvL env s) (ev : Ev) : InvL env 
     · rename_i g prev fp p hpc
       split <;> exact invL_progress h r i _ rfl rfl (by simp [hpc, Pc.holds])
     · exact h
+  | close r i =>
+    simp only [step]; split
+    · exact h
+    split
+    · split
+      · exact invL_congr h rfl rfl
+      · exact h
+    · exact h
   | status r i =>
     simp only [step]; split
     · exact h
     rename_i hgc
     split
     · rename_i g fp res hpc
-      exact invL_progress h r i _ rfl rfl (by simp [hpc, Pc.holds])
+      split
+      · exact h
+      · exact invL_progress h r i _ rfl rfl (by simp [hpc, Pc.holds])
     · exact h
   | done r i =>
     simp only [step]; split
@@ -678,12 +706,22 @@ theorem invD_step {env : Env} {hist : List Op} {s : State} (hL : InvL env s) (h 
           (by intro g' prev' he; cases he)
           ⟨prev, d0, d1, d2, dead s r, by simp [drive, h0, h1, h2, hok]⟩
     · exact h
+  | close r i =>
+    simp only [step]; split
+    · exact h
+    split
+    · split
+      · exact invD_congr h rfl rfl rfl
+      · exact h
+    · exact h
   | status r i =>
     simp only [step]; split
     · exact h
     rename_i hgc
     split
     · rename_i g fp res hpc
+      split
+      · exact h
       have he := h.expl r i
       rw [hpc] at he
       obtain ⟨prev, d0, d1, d2, d3, hd⟩ := he
@@ -1195,6 +1233,27 @@ theorem invR_slot {env : Env} {s s' : State} (h : InvR env s) (r : Nat) (p : Pc)
     · exact Or.inr (hdead r' ha)
   · intro r'; rw [hrun]; exact h.quiet r'
 
+/-- A step that leaves runs, program counters and the lock source alone. -/
+theorem invR_congr {env : Env} {s s' : State} (h : InvR env s) (hrun : s'.run = s.run) (hpc : s'.pc = s.pc)
+    (hl : s'.locks = s.locks) : InvR env s' := by
+  have hun : ∀ r, unfinished s' r = unfinished s r := by
+    intro r; simp only [unfinished, hrun, hpc]
+  have hd : ∀ r, dead s' r = dead s r := by
+    intro r; simp only [dead, hl]
+  constructor
+  · intro r; rw [hrun]; exact h.nodup r
+  · intro r i; rw [hrun]; exact h.sub r i
+  · intro r i hi; rw [hrun, hpc]; exact h.idle r i hi
+  · intro r; rw [hrun]; exact h.gcNotTried r
+  · intro r; rw [hrun]; exact h.triedLe r
+  · intro r; rw [hrun]; exact h.launchedLe r
+  · intro r b; rw [hrun]; exact h.acq r b
+  · intro r; rw [hun, hrun]; exact h.count r
+  · intro r; rw [hrun]; exact h.batch r
+  · intro r i; rw [hrun, hpc]; exact h.errs r i
+  · intro r; rw [hrun, hd]; exact h.all r
+  · intro r; rw [hrun]; exact h.quiet r
+
 theorem invR_step {env : Env} {s : State} (h : InvR env s) (ev : Ev) : InvR env (step env s ev).1 := by
   cases ev with
   | begin r =>
@@ -1308,12 +1367,22 @@ theorem invR_step {env : Env} {s : State} (h : InvR env s) (ev : Ev) : InvR env 
       split <;> exact invR_progress h r i _ rfl rfl (fun _ hh => hh) hgc (by rw [hpc]; intro hh; cases hh)
         (by rw [hpc]; rfl) (by intro hh; cases hh) rfl
     · exact h
+  | close r i =>
+    simp only [step]; split
+    · exact h
+    split
+    · split
+      · exact invR_congr h rfl rfl rfl
+      · exact h
+    · exact h
   | status r i =>
     simp only [step]; split
     · exact h
     rename_i hgc
     split
     · rename_i g fp res hpc
+      split
+      · exact h
       exact invR_progress h r i _ rfl rfl (fun _ hh => hh) hgc (by rw [hpc]; intro hh; cases hh)
         (by rw [hpc]; rfl) (by intro hh; cases hh) rfl
     · exact h
@@ -1440,7 +1509,7 @@ theorem pc_frame (env : Env) (s : State) (ev : Ev) (r i : Nat) (h : ev.worker en
   all_goals first
     | rfl
     | (simp only [Ev.worker, ne_eq, Option.some.injEq, Prod.mk.injEq] at h
-       simp only [finish_pc, gcFinish_pc, setPc_pc, setRun_pc]
+       simp only [finish_pc, gcFinish_pc, setPc_pc, setRun_pc, setBody_pc]
        rw [if_neg (fun hh => h ⟨hh.1.symm, hh.2.symm⟩)])
     | (simp only [Ev.worker, ne_eq, Option.some.injEq, Prod.mk.injEq] at h
        simp only [State.setPc, State.setRun]
